@@ -114,7 +114,9 @@ impl SampleTables {
         let cts_offsets: Vec<i32> = samples
             .iter()
             .map(|sample| {
-                let offset = (sample.pts as i64 - sample.dts as i64) as i32;
+                // In range by construction (checked when the sample was queued);
+                // wrapping keeps timestamps that straddle 2^63 from overflowing i64.
+                let offset = sample.pts.wrapping_sub(sample.dts) as i32;
                 if offset != 0 {
                     has_bframes = true;
                 }
